@@ -160,12 +160,18 @@ EventFits(s, e) == Sync(s) /\ CaseFits(KEvent(s, e), s.liveS)
 (* loop: "after each match is substituted check if it still matches the pattern, and if so substitute again,   *)
 (* up to `loop` times" - per LOCATION: a run of events (first + loop continuations) ends only when its budget  *)
 (* is used up or the new node no longer matches (`still` = replaced.match(pat), the question subn() itself asks) *)
-RunNow(e) == IF e.loopcont THEN run + 1 ELSE 1
-LastOfRun(i) == LET nx == Steps(tid)[i + 1] IN nx.k # "subst" \/ ~nx.loopcont
+(* `same` (observation): the callback got the very node the previous substitution returned.  Whether that is a  *)
+(* loop continuation is decided HERE: it is one iff the location still has budget and its node still matched.   *)
+(* Otherwise the node is visited as a NEW location, which only the nested walk can do (nested=True, on='enter': *)
+(* the statements put in place of a match are searched, the first of them is the node returned).                *)
+Cont(e, r, ps) == e.same /\ Cfg.loop > 0 /\ r >= 1 /\ r < Cfg.loop /\ ps
+IsCont(e)  == Cont(e, run, pstill)
+RunNow(e)  == IF IsCont(e) THEN run + 1 ELSE 1
+LastOfRun(i, e) == LET nx == Steps(tid)[i + 1] IN nx.k # "subst" \/ ~Cont(nx, RunNow(e), e.still)
 NextOk(i)    == LET nx == Steps(tid)[i + 1] IN nx.k = "subst" \/ nx.outcome = "ok"
 LoopClauses(e) ==
-  (IF e.loopcont THEN {Cl("Loop.Bounded", Cfg.loop > 0 /\ run < Cfg.loop /\ pstill)} ELSE {})
-  \cup (IF Cfg.loop > 0 /\ l < Len(Steps(tid)) /\ LastOfRun(l) /\ NextOk(l)
+  (IF e.same /\ ~IsCont(e) THEN {Cl("Loop.Bounded", Cfg.nested /\ Cfg.on = "enter")} ELSE {})
+  \cup (IF Cfg.loop > 0 /\ l < Len(Steps(tid)) /\ LastOfRun(l, e) /\ NextOk(l)
         THEN {Cl("Loop.Complete", e.still => RunNow(e) = Cfg.loop)} ELSE {})
 
 SubstClauses(s, e) ==     \* s = state after the previous step, e.pre = state observed when the callback fired
@@ -267,7 +273,7 @@ Clauses(s, e) ==
     [] OTHER -> {Cl("UnknownEvent", FALSE)}
 
 ClassOf(s, e) ==
-  CASE e.k = "subst" -> "subst/" \o Kind(NodeAt(e.pre.liveS, e.m.p)) \o (IF e.loopcont THEN "/loop" ELSE "")
+  CASE e.k = "subst" -> "subst/" \o Kind(NodeAt(e.pre.liveS, e.m.p)) \o (IF IsCont(e) THEN "/loop" ELSE "")
                            \o Detail(KEvent(e.pre, e))
     [] e.k = "done"  -> "done/" \o e.outcome \o "/" \o e.exc \o "/" \o Static.mode
                            \o (IF Static.mode # "step" THEN Detail(Static.K) ELSE "")
@@ -286,7 +292,7 @@ Next == /\ l <= Len(Steps(tid))
               /\ seen' = seen \cup {r.c : r \in cs}
               /\ st' = e.post
               /\ nEv' = nEv + (IF e.k = "subst" THEN 1 ELSE 0)
-              /\ nUniq' = nUniq + (IF e.k = "subst" /\ ~e.loopcont THEN 1 ELSE 0)
+              /\ nUniq' = nUniq + (IF e.k = "subst" /\ ~IsCont(e) THEN 1 ELSE 0)
               /\ allValid' = (allValid /\ (e.k = "subst" => e.hasRef /\ e.expValid))
               /\ fits' = (fits /\ (e.k = "subst" => EventFits(e.pre, e)))
               /\ run' = (IF e.k = "subst" THEN RunNow(e) ELSE 0)
